@@ -54,9 +54,26 @@ pub fn run_scenario(out: &mut Out, sc: Scenario) {
         let mut reply_burst: Vec<usize> = vec![];
         for (k, burst) in bursts.iter().enumerate() {
             if burst.is_empty() {
-                brackets.push("0.0-0.0".into());
+                let ms = pauses.get(k).copied().unwrap_or(0);
+                if ms == 0 {
+                    brackets.push("0.0-0.0".into());
+                    continue;
+                }
+                // a STALL: the worker is not scheduled for `ms` (nothing is processed), then it goes on serving what
+                // the previous burst left queued. Whatever is signed now must carry a clock reading taken now
+                // (seeded change C11-r6 kept the reading of the wake-up that found the backlog).
+                std::thread::sleep(std::time::Duration::from_millis(ms));
+                let b0 = now_ns();
+                for _ in 0..6 { rig.process(); }
+                let got = rig.drain();
+                let b1 = now_ns();
+                brackets.push(format!("{}.{:09}-{}.{:09}", b0.0, b0.1, b1.0, b1.1));
+                for _ in 0..got.len() { reply_burst.push(k); }
+                replies.extend(got);
                 continue;
             }
+            // a burst followed by a stall gets ONE process_events call (at most 16 batches), so that a backlog stays
+            let stall_next = bursts.get(k + 1).map(|b| b.is_empty()).unwrap_or(false) && pauses.get(k + 1).copied().unwrap_or(0) > 0;
             if let Some(ms) = pauses.get(k) {
                 if *ms > 0 {
                     // idle: the worker polls (and times out) as it would in production
@@ -70,7 +87,7 @@ pub fn run_scenario(out: &mut Out, sc: Scenario) {
             for (c, d) in burst {
                 rig.send(*c, d);
             }
-            rig.process_burst(burst.len());
+            if stall_next { rig.process(); } else { rig.process_burst(burst.len()); }
             let got = rig.drain();
             let b1 = now_ns();
             brackets.push(format!("{}.{:09}-{}.{:09}", b0.0, b0.1, b1.0, b1.1));
@@ -425,6 +442,17 @@ fn c11_cases(out: &mut Out, r: &mut Rng, thorough: bool) {
             _ => (vec![junk(&mut g, 2), junk(&mut g, 1), valid(&mut g, 1)], vec![0, 1100, 1200]),
         };
         run_scenario(out, Scenario { cfg, nclients: 4, bursts, sentinel: false, tag: "c11".into(), pauses });
+    }
+    // backlog + stall: more than 16 batches queued, ONE process_events call, the worker is not scheduled for 1.2–1.6 s,
+    // then the rest is served: every reply must state the clock at ITS signing, also when a call starts with a backlog
+    for k in 0..(if thorough { 12 } else { 4 }) {
+        let mut g = Gen::new(r);
+        let batch = *g.r.pick(&[1u8, 2]);
+        let cfg = cfg_of(&mut g, batch, 0, "off");
+        let n = 16 * batch as usize + 3 + (k % 3) * batch as usize;
+        let big: Vec<(usize, Vec<u8>)> = (0..n).map(|i| (1 + i % 3, match k % 3 { 0 => g.valid_classic(), 1 => g.valid_ietf(), _ => g.valid_any() })).collect();
+        let (bursts, pauses) = (vec![big, vec![], (0..2).map(|i| (1 + i, g.valid_any())).collect()], vec![0, 1200 + 200 * (k as u64 % 3), 0]);
+        run_scenario(out, Scenario { cfg, nclients: 4, bursts, sentinel: false, tag: "c11-stall".into(), pauses });
     }
 }
 
